@@ -34,6 +34,8 @@ type AdminReq struct {
 	SubNonce uint64  `json:"sub_nonce"`  // its nonce as the state reports it
 	Signers  []int   `json:"signers"`    // key-pool indices, in order, duplicates allowed
 	BadSig   []int   `json:"bad_sig"`    // positions in Signers whose signature is over another message
+	OldSigs  bool    `json:"old_sigs,omitempty"` // every signer's entry carries the signature it made for the latest earlier request of the case it signed (over that request's message)
+	KeyPad   []int   `json:"key_pad,omitempty"` // positions in Signers whose key bytes carry that many extra bytes after the key (position p: KeyPad[p] bytes)
 	SelfOK   bool    `json:"self_ok"`
 	CmdType  string  `json:"cmd_type"`
 	BadMsg   bool    `json:"bad_msg"`
@@ -131,6 +133,11 @@ func genAdminCase(r *Rng, directed int) AdminCase {
 				if len(cur) > 0 {
 					x := cur[r.Intn(len(cur))]
 					q.Signers = []int{x, x, x, x}
+					if r.Bool() {
+						// ... each time under other bytes: the key followed by 0..3 more bytes names the same
+						// validator (the key type is a fixed array filled by copy), and the same signature verifies
+						q.KeyPad = []int{0, 1, 2, 3}
+					}
 				}
 			case 2: // non-validators only
 				q.Signers = nil
@@ -159,6 +166,9 @@ func genAdminCase(r *Rng, directed int) AdminCase {
 				q.CmdType = "somethingElse"
 			case 9:
 				q.BadMsg = true
+			case 10:
+				// a request nobody signed, dressed in the validators' signatures over an earlier request
+				q.OldSigs = true
 			}
 			blk = append(blk, q)
 			all = append(all, q)
@@ -288,6 +298,7 @@ func runAdminCase(idx int, c AdminCase, workdir string) (string, []MonitorHit, m
 		q  AdminReq
 	}
 	var history []built
+	lastSig := map[int][]byte{} // signer -> its latest genuine signature over some earlier request
 	expected := map[string]int64{} // address -> power, by the plain reading of the accepted requests
 	for _, v := range set.Validators {
 		expected[string(v.Address)] = v.VotingPower
@@ -314,6 +325,7 @@ func runAdminCase(idx int, c AdminCase, workdir string) (string, []MonitorHit, m
 				bad[p] = true
 			}
 			var sigsSx []string
+			fresh := map[int][]byte{}
 			good := map[string]int64{}
 			for pos, si := range q.Signers {
 				k := keys[si%len(keys)]
@@ -322,7 +334,18 @@ func runAdminCase(idx int, c AdminCase, workdir string) (string, []MonitorHit, m
 					m = []byte("other message")
 				}
 				sg := sigBytes(k.Sign(m))
-				cmd.SInfos = append(cmd.SInfos, types.SigInfo{PubKey: pubBytes(k), Signature: sg})
+				if old, ok := lastSig[si%len(keys)]; ok && q.OldSigs {
+					sg = old
+				} else if !bad[pos] {
+					fresh[si%len(keys)] = sg
+				}
+				kb := pubBytes(k)
+				if pos < len(q.KeyPad) {
+					for e := 0; e < q.KeyPad[pos]; e++ {
+						kb = append(kb, byte(e))
+					}
+				}
+				cmd.SInfos = append(cmd.SInfos, types.SigInfo{PubKey: kb, Signature: sg})
 				addr := k.PubKey().Address()
 				ok := k.PubKey().VerifyBytes(cmd.Msg, crypto.SetNodeSignature(sg))
 				sigsSx = append(sigsSx, sxL(sxB(addr), sxBool(ok)))
@@ -333,6 +356,9 @@ func runAdminCase(idx int, c AdminCase, workdir string) (string, []MonitorHit, m
 			js, _ := json.Marshal(cmd)
 			tx := types.TagAdminOPTx(js)
 			history = append(history, built{tx, q})
+			for k, v := range fresh {
+				lastSig[k] = v
+			}
 			app := &stubApp{from: unhex(q.SubFrom), nonce: q.SubNonce}
 			pendBefore := len(rep.op.ChangedValidators)
 			var err error
@@ -481,7 +507,7 @@ func engAdmin(args []string) error {
 		return err
 	}
 	meta := NewMeta("admin", c.Seed)
-	meta.Rule = "case = initial validator set (1..4 of a key pool, several power distributions incl. 4x10) and 2..5 blocks of administrative requests (add/update/remove/unknown; signer lists complete, partial, one validator repeated, non-validators, mis-signed; wrong sender / nonce / self-signature / command type / malformed message; verbatim replays within and across blocks) driven through AdminOp.ExecTX and EndBlock on two replicas (one reloaded from the persisted set); distinct = case line; non-trivial = at least one request changed the pending list"
+	meta.Rule = "case = initial validator set (1..4 of a key pool, several power distributions incl. 4x10) and 2..5 blocks of administrative requests (add/update/remove/unknown; signer lists complete, partial, one validator repeated (also under key bytes with 0..3 bytes appended, which name the same validator), non-validators, mis-signed, or carrying the signatures the same validators made over an earlier request; wrong sender / nonce / self-signature / command type / malformed message; verbatim replays within and across blocks) driven through AdminOp.ExecTX and EndBlock on two replicas (one reloaded from the persisted set); distinct = case line; non-trivial = at least one request changed the pending list"
 	var cases []AdminCase
 	if c.Replay != "" {
 		var rc struct{ Case AdminCase `json:"case"` }
